@@ -251,7 +251,11 @@ func (r *renderer) stmt(s *Stmt, depth int) {
 	case sSet:
 		r.emit(depth, o+"set $"+s.Var+" "+setOpText(s.Op, s.Spell)+" "+renderExpr(s.E)+c, true)
 	case sDeclare:
-		r.emit(depth, o+"declare $"+s.Var+" "+setOpText("=", s.Spell)+" "+renderExpr(s.E)+c, true)
+		as := ""
+		if s.AsType != "" {
+			as = " as " + s.AsType
+		}
+		r.emit(depth, o+"declare $"+s.Var+" "+setOpText("=", s.Spell)+" "+renderExpr(s.E)+as+c, true)
 	case sJump:
 		r.emit(depth, o+"jump "+s.Target+c, true)
 	case sJumpE:
